@@ -87,6 +87,13 @@ def valid_bases(name, mod, n, rnd, synth):
     # completed to a valid number by searching one inner position and the last character -- where a special case that was
     # widened, narrowed or loosened from "starts with" to "contains" shows
     def complete(t, fixed):
+        for dl in '0123456789X':                     # the last character alone first
+            u = t[:-1] + dl
+            try:
+                if u not in seen and mod.is_valid(u) is True and mod.validate(u) == u:
+                    return u
+            except Exception:
+                pass
         for j in range(fixed, len(t) - 1):
             for dj in '0123456789':
                 for dl in '0123456789':
@@ -103,8 +110,14 @@ def valid_bases(name, mod, n, rnd, synth):
     for b in bases[:1]:
         if not (b.isascii() and b.isdigit()):
             continue
-        for L in inputs.literals(mod, minlen=4, maxlen=max(4, len(b) - 1), cap=40):
-            if not L.isdigit() or found >= 12:
+        lits0 = [q for q in inputs.literals(mod, minlen=3, maxlen=max(4, len(b) - 1), cap=40) if q.isdigit()]
+        lits = []
+        for q in lits0:                   # the literal, its numeric successor and predecessor (range bounds that are off by one)
+            for w in (q, ('%0' + str(len(q)) + 'd') % (int(q) + 1), ('%0' + str(len(q)) + 'd') % max(0, int(q) - 1)):
+                if len(w) == len(q) and w not in lits:
+                    lits.append(w)
+        for L in lits:
+            if found >= 36:
                 continue
             templates = []
             for k in (len(L), len(L) - 1, len(L) - 2):
@@ -113,7 +126,10 @@ def valid_bases(name, mod, n, rnd, synth):
                     if (k < len(L) and L.startswith(pre)) or len(pre) >= len(b):
                         continue
                     templates.append((pre + b[len(pre):], len(pre), k < len(L) or d == '3'))
-            for off in (1, 2):
+            for off in (1, 2, 3, 4, 5):       # the literal behind the base's own first characters (range bounds behind a prefix) ...
+                if off + len(L) < len(b):
+                    templates.append((b[:off] + L + b[off + len(L):], 2000 + off + len(L), False))
+            for off in (1, 2):                # ... and behind other leading digits
                 if off + len(L) < len(b) - 1:
                     for lead in ('0123456789' if off == 1 else ['%02d' % q for q in range(0, 100, 7)]):
                         templates.append((lead + L + b[off + len(L):], 1000 + off + len(L), lead == '9'))
